@@ -51,9 +51,10 @@ def ast_dump_expr(s):
 
 
 def strip_code(v):
+    """The expression inside ONE level of code quoting (three back-ticks); text quoted twice is a different value."""
     s = v.strip()
-    while s.startswith("`") and s.endswith("`") and len(s) > 1:
-        s = s.strip("`")
+    if len(s) > 6 and s.startswith("```") and s.endswith("```"):
+        return s[3:-3]
     return s
 
 
